@@ -54,6 +54,11 @@ func HarnessC02a() {
 		if err != nil {
 			return
 		}
+		if verifBoundOr("FRESHCACHE", 0) == 1 {
+			// "restart": from here on the shared cache is a new one that fills by loading
+			cache = mkCache(verifBound("CACHE"))
+			cfg = symConfig(st, cache)
+		}
 		base, err = r.LoadMast(vctx, cfg)
 		verifAssert("C01.load.err", err == nil)
 		if err != nil {
